@@ -197,6 +197,10 @@ pub struct Vt<I: 'static> {
     pub copy: Option<fn(I) -> Option<I>>,
     pub eq: Option<Mk2<I, bool>>,
     pub partial_cmp: Option<Mk2<I, Option<Ordering>>>,
+    /// the operators [<, <=, >, >=, !=] on two values
+    pub cmp_ops: Option<Mk2<I, [bool; 5]>>,
+    /// `Ord::max` / `Ord::min` of two values, as inner values
+    pub ord_minmax: Option<Mk2<I, (I, I)>>,
     /// the same object on both sides of `==` / `!=` / `partial_cmp`
     pub eq_self: Option<fn(I) -> Option<(bool, bool)>>,
     pub partial_cmp_self: Option<fn(I) -> Option<Option<Ordering>>>,
@@ -260,6 +264,8 @@ impl<I: 'static> Vt<I> {
             copy: None,
             eq: None,
             partial_cmp: None,
+            cmp_ops: None,
+            ord_minmax: None,
             eq_self: None,
             partial_cmp_self: None,
             cmp: None,
